@@ -168,7 +168,7 @@ struct RelocTag {
 };
 struct NoTag {};
 
-template <bool Reloc, bool NoexceptMove = true>
+template <bool Reloc, bool NoexceptMove = true, bool NoexceptMoveAsg = NoexceptMove>
 struct EObj : std::conditional<Reloc, RelocTag, NoTag>::type {
   int v;
   int id;
@@ -211,10 +211,10 @@ struct EObj : std::conditional<Reloc, RelocTag, NoTag>::type {
     mv = o.mv;
     return *this;
   }
-  EObj &operator=(EObj &&o) noexcept(NoexceptMove) {
+  EObj &operator=(EObj &&o) noexcept(NoexceptMoveAsg) {
     check_();
     o.check_();
-    if (!NoexceptMove) R.maybeThrow(true);
+    if (!NoexceptMoveAsg) R.maybeThrow(true);
     // a self move assignment of an object whose value has already been taken (the middle step of std::swap(x, x))
     // is harmless; one of an object holding a value is what property C02 forbids
     R.prim(this == &o && mv ? "masg_self_mf" : "masg", id, this, o.id, &o);
@@ -248,6 +248,7 @@ struct EObj : std::conditional<Reloc, RelocTag, NoTag>::type {
 using ETR = EObj<true>;     // declares itself trivially relocatable, not trivially copyable
 using ENTR = EObj<false>;   // neither: may only be moved through its own operations (self pointer)
 using ENTRM = EObj<false, false>;  // same, and its move operations may throw
+using ENTRA = EObj<false, true, false>;  // same, but only its move ASSIGNMENT may throw (noexcept move constructor)
 
 // ---------------------------------------------------------------------------------------------------------------
 // Allocators.  All memory comes from malloc; every request / release is logged in BYTES.
